@@ -8,6 +8,11 @@ namespace Petl.Snapshot
 open Petl.Gen
 
 def expectedC10 : List (String × String) := [
+  ("file:comparison.py", "17971f67ee946013"),
+  ("file:config.py", "142bde514c82c29d"),
+  ("file:transform/dedup.py", "00c85272c501507a"),
+  ("file:transform/sorts.py", "137f7e8a70e043fe"),
+  ("file:util/base.py", "771a68108eeb730d"),
   ("transform.dedup.DistinctView", "0efc0b2939e279f2"),
   ("transform.dedup.isunique", "ae424b2c66465559"),
   ("transform.dedup.iterconflicts", "936e44b09579a4d3"),
